@@ -151,6 +151,21 @@ class Check(object):
         self._n += 1
         return os.path.join(self.scratch, name or ("d%06d" % self._n))
 
+    def tmp_reuse(self, name=None):
+        """A scratch path for ONE scenario at a time: every path is handed out twice in a row (its previous content removed
+        first), so that consecutive scenarios see different plotfiles at the SAME path -- what a cache keyed by path would
+        confuse.  Only for callers that are done with the previous scenario's directory."""
+        last = getattr(self, "_reuse_last", None)
+        if last is not None and getattr(self, "_reuse_count", 0) < 2:
+            shutil.rmtree(last, ignore_errors=True)
+            self._reuse_count += 1
+            return last
+        if last is not None:
+            shutil.rmtree(last, ignore_errors=True)
+        self._reuse_last = self.tmp(name)
+        self._reuse_count = 1
+        return self._reuse_last
+
     def cleanup(self):
         shutil.rmtree(self.scratch, ignore_errors=True)
 
